@@ -150,12 +150,33 @@ class Report:
 _pool = None
 
 
+def _pin(q):
+    # One simulated world = several OS threads of which exactly one runs at a time.  Keeping
+    # them on one CPU makes the baton hand-over a local wake-up (measured 3.5x faster in this VM).
+    try:
+        os.sched_setaffinity(0, {q.get()})
+    except Exception:
+        pass
+
+
+def pin_self():
+    try:
+        cpus = sorted(os.sched_getaffinity(0))
+        os.sched_setaffinity(0, {cpus[-1]})
+    except Exception:
+        pass
+
+
 def pool():
     """Long-lived fork pool; must be created before the parent starts any sim thread."""
     global _pool
     if _pool is None:
         ctx = mp.get_context("fork")
-        _pool = ctx.Pool(NPROC)
+        cpus = sorted(os.sched_getaffinity(0))
+        q = ctx.Queue()
+        for i in range(NPROC):
+            q.put(cpus[i % len(cpus)])
+        _pool = ctx.Pool(NPROC, initializer=_pin, initargs=(q,))
     return _pool
 
 
